@@ -32,12 +32,12 @@ def gen_encoded_header(workdir):
     open(os.path.join(d, 'fft4g_cache_enc.h'), 'w').write(src)
 
 
-def cache_obl(threads, calls, kf=None, timeout=900, tiers=('quick', 'thorough')):
-    return Obl(name='fftcache_t%d_c%d%s' % (threads, calls, '_lazyinit' if kf else ''), src='c17_cache.c',
-               defs=['-DVF_THREADS=%d' % threads, '-DVF_CALLS=%d' % calls], ccflags=['-I' + os.path.join(runner.HARNESS, 'include', 'omp_model')],
+def cache_obl(threads, calls, kf=None, timeout=900, tiers=('quick', 'thorough'), len4=0):
+    return Obl(name='fftcache_t%d_c%d%s%s' % (threads, calls, '_lazyinit' if kf else '', '_len4' if len4 else ''), src='c17_cache.c',
+               defs=['-DVF_THREADS=%d' % threads, '-DVF_CALLS=%d' % calls] + (['-DVF_LEN4'] if len4 else []), ccflags=['-I' + os.path.join(runner.HARNESS, 'include', 'omp_model')],
                unwind=max(calls, threads) + 2, checks='none', slice=False, extra=['--sat-solver', 'cadical'], timeout=timeout, tiers=tiers, kf=kf, native=False, ndebug=False, mem_gb=24,
                desc='%d threads x %d lsx_safe_rdft calls, all interleavings%s' % (threads, calls, ' (probe of the known finding: first use inside the threads)' if kf else ''),
-               bounds='%d threads, %d calls each, lengths in {8,16,32}; sequential consistency' % (threads, calls),
+               bounds='%d threads, %d calls each, lengths in {8,16,32%s}; sequential consistency' % (threads, calls, ',64' if len4 else ''),
                stubs=['omp locks: harness/include/omp_model/omp.h + c17_cache.c', 'realloc/free/atexit and the transform lsx_rdft: event models'],
                funcs=['fft4g_cache.h:update_fft_cache', 'fft4g_cache.h:done_with_fft_cache', 'fft4g_cache.h:lsx_init_fft_cache',
                       'fft4g_cache.h:lsx_safe_rdft', 'ccrw2.h:ccrw2_become_reader', 'ccrw2.h:ccrw2_cease_reading',
@@ -51,5 +51,5 @@ def prepare(workdir):
 def obligations(tier):
     obls = [cache_obl(2, 1), cache_obl(2, 1, kf='KF_C17_LAZY_INIT')]
     if tier == 'thorough':
-        obls += [cache_obl(2, 2, timeout=3000), cache_obl(3, 1, timeout=3000)]
+        obls += [cache_obl(2, 1, timeout=2400, len4=1)]
     return obls
